@@ -186,6 +186,9 @@ func runCheck(prop, tier string, only []string, writeEvidence bool) int {
 				continue
 			}
 			params := effectiveParams(h, tier)
+			if tier == "quick" && (h.WallS == 0 || h.WallS > 420) {
+				h.WallS = 420 // the quick tier never spends more than 7 minutes in one harness
+			}
 			var hk []knownFinding
 			for _, k := range known {
 				if k.Property == prop {
